@@ -116,6 +116,28 @@ fn check_record(c: i32, rep: &mut Report) {
     for body in [16usize, 0, 8] {
         check_record_layout(c, body, rep);
     }
+    check_index_header(c, rep);
+}
+
+/// A valid one-record Point .shp with an index whose HEADER carries type code `c`: opening the
+/// pair must fail with the invalid-shape-type error carrying the value.
+fn check_index_header(c: i32, rep: &mut Report) {
+    if valid(c) {
+        return;
+    }
+    let shp = record_file_with(1, 16);
+    let mut shx = header_bytes(c).to_vec();
+    shx[24..28].copy_from_slice(&54i32.to_be_bytes());
+    shx.extend_from_slice(&50i32.to_be_bytes());
+    shx.extend_from_slice(&10i32.to_be_bytes());
+    let r = panicmon::catch(|| ShapeReader::with_shx(Cursor::new(shp), Cursor::new(shx)).map(|_| ()));
+    let what = match r {
+        Ok(Err(Error::InvalidShapeType(x))) if x == c => return,
+        Ok(Err(e)) => crate::shapes::err_class(&e),
+        Ok(Ok(())) => "Ok(reader)".to_string(),
+        Err(p) => format!("panic {}", p.class()),
+    };
+    rep.violation("index-header-error", &format!("record:{}", c), J::obj(vec![("code", J::Int(c as i64)), ("got", J::s(what)), ("what", J::s("type word of the .shx header"))]));
 }
 
 fn check_record_layout(c: i32, body: usize, rep: &mut Report) {
